@@ -94,7 +94,7 @@ class Fn:
     """translation context of one function"""
 
     def __init__(self, node, sigs, method=False, floats=False, numpy=(), graph=False, objects=(), coding=False, repair=False,
-                 itertools=()):
+                 itertools=(), score=False, collections=(), inplace=(), matrix=False, capacity=False):
         self.node = node
         self.sigs = sigs                      # name -> (params, {param: default ast})
         self.method = method                  # a method: `self.x` is the variable "self.x"; attributes read become parameters
@@ -106,6 +106,11 @@ class Fn:
         self.borrowing = {}                   # callee name -> parameters it only reads (set by the generator)
         self.repair = repair                  # target MiniPyR.v (sets, del, zip, product, sorted, filter-lambda)
         self.itertools = set(itertools)       # names imported from itertools (product)
+        self.score = score                    # target MiniPyS.v (combinations, union1d, unique, intersect1d, argmax, max, Counter ...)
+        self.collections = set(collections)   # names imported from collections (Counter)
+        self.inplace = set(inplace)           # parameters the function is documented to update in place and hands back
+        self.capacity = capacity              # target MiniPyC.v (floats, float arrays, median, the random stream, external log2 / pow)
+        self.matrix = matrix                  # target MiniPyM.v (shape[1], min, set(list) | set(list), list(set) external, fancy stores)
         self.params = [a.arg for a in node.args.args]
         a = node.args
         if a.vararg or a.kwarg or a.kwonlyargs or a.posonlyargs or node.decorator_list:
@@ -158,6 +163,42 @@ class Fn:
 
     # ---------------------------------------------------------------- expressions
     def expr(self, e):
+        if self.capacity:
+            if isinstance(e, ast.Constant) and isinstance(e.value, float):
+                if e.value != e.value or e.value in (float("inf"), float("-inf")):
+                    raise Refuse("non-finite float literal")
+                return "(EFloat (%s)%%float)" % float(e.value).hex()
+            # a ** b : ints with a negative exponent give a float computed by libm -- the external "__pow__"
+            if isinstance(e, ast.BinOp) and isinstance(e.op, ast.Pow):
+                return "(ECall %s [%s; %s])" % (qs("__pow__"), self.expr(e.left), self.expr(e.right))
+            # "%.5f" % x  (only ever printed)
+            if isinstance(e, ast.BinOp) and isinstance(e.op, ast.Mod) and isinstance(e.left, ast.Constant) and e.left.value == "%.5f":
+                return "(EB1 BFmtFloat %s)" % self.expr(e.right)
+            if isinstance(e, ast.Call) and isinstance(e.func, ast.Name) and e.func.id in self.numpy and e.func.id not in self.assigned:
+                name, kws = e.func.id, {k.arg: k.value for k in e.keywords}
+                one = {"all": "BNpAllAny", "abs": "BAbs", "zeros_like": "BZerosLike", "median": "BMedian"}
+                if name in one and len(e.args) == 1 and not kws:
+                    return "(EB1 %s %s)" % (one[name], self.expr(e.args[0]))
+                if name == "log2" and len(e.args) == 1 and not kws:
+                    return "(ECall %s [%s])" % (qs("__log2__"), self.expr(e.args[0]))
+                if name == "ones" and not e.args and set(kws) == {"shape", "dtype"} and isinstance(kws["dtype"], ast.Name) \
+                        and kws["dtype"].id == "float" and "float" not in self.assigned and isinstance(kws["shape"], ast.Tuple) \
+                        and len(kws["shape"].elts) == 1:
+                    return "(EB1 BNpOnesF %s)" % self.expr(kws["shape"].elts[0])
+        if self.matrix:
+            # a.shape[1]
+            if isinstance(e, ast.Subscript) and isinstance(e.value, ast.Attribute) and e.value.attr == "shape" \
+                    and isinstance(e.slice, ast.Constant) and e.slice.value == 1 and type(e.slice.value) is int:
+                return "(EB1 BShape1 %s)" % self.expr(e.value.value)
+            # set(x) | set(y)
+            if isinstance(e, ast.BinOp) and isinstance(e.op, ast.BitOr) and all(self.is_set_of(x) for x in (e.left, e.right)):
+                return "(EB2 BSetUnion %s %s)" % (self.expr(e.left), self.expr(e.right))
+            if self.is_set_of(e):
+                return "(EB1 BSetOf %s)" % self.expr(e.args[0])
+            # list(<a set>): the iteration order of a set is the external function "__list_of_set__"
+            if isinstance(e, ast.Call) and isinstance(e.func, ast.Name) and e.func.id == "list" and "list" not in self.assigned \
+                    and len(e.args) == 1 and not e.keywords and isinstance(e.args[0], ast.BinOp) and isinstance(e.args[0].op, ast.BitOr):
+                return "(ECall %s [%s])" % (qs("__list_of_set__"), self.expr(e.args[0]))
         if isinstance(e, ast.Constant):
             v = e.value
             if v is None:
@@ -249,6 +290,33 @@ class Fn:
             if cond is not None:
                 return "(ECompIf %s %s %s %s)" % (body, qs(g.target.id), self.expr(g.iter), cond)
             return "(EComp %s %s %s)" % (body, qs(g.target.id), self.expr(g.iter))
+        if self.score:
+            # int(log(a) / log(b))
+            if isinstance(e, ast.Call) and isinstance(e.func, ast.Name) and e.func.id == "int" and "int" not in self.assigned \
+                    and len(e.args) == 1 and not e.keywords and isinstance(e.args[0], ast.BinOp) and isinstance(e.args[0].op, ast.Div):
+                l, r = e.args[0].left, e.args[0].right
+                if all(isinstance(x, ast.Call) and isinstance(x.func, ast.Name) and x.func.id == "log" and "log" in self.numpy
+                       and len(x.args) == 1 and not x.keywords for x in (l, r)):
+                    return "(EB2 BIntLogRatio %s %s)" % (self.expr(l.args[0]), self.expr(r.args[0]))
+            # x.T
+            if isinstance(e, ast.Attribute) and e.attr == "T" and not (self.method and isinstance(e.value, ast.Name) and e.value.id == "self"):
+                return "(EB1 BTranspose %s)" % self.expr(e.value)
+            # a[:, idx]
+            if isinstance(e, ast.Subscript) and isinstance(e.slice, ast.Tuple) and len(e.slice.elts) == 2 \
+                    and isinstance(e.slice.elts[0], ast.Slice) and e.slice.elts[0].lower is None and e.slice.elts[0].upper is None \
+                    and e.slice.elts[0].step is None and not isinstance(e.slice.elts[1], ast.Slice):
+                return "(EB2 BColumns %s %s)" % (self.expr(e.value), self.expr(e.slice.elts[1]))
+            # Counter(x).items()
+            if isinstance(e, ast.Call) and isinstance(e.func, ast.Attribute) and e.func.attr == "items" and not e.args and not e.keywords \
+                    and isinstance(e.func.value, ast.Call) and isinstance(e.func.value.func, ast.Name) \
+                    and e.func.value.func.id == "Counter" and "Counter" in self.collections and len(e.func.value.args) == 1 \
+                    and not e.func.value.keywords:
+                return "(EB1 BCounterItems %s)" % self.expr(e.func.value.args[0])
+            # x.reshape(-1)
+            if isinstance(e, ast.Call) and isinstance(e.func, ast.Attribute) and e.func.attr == "reshape" and len(e.args) == 1 \
+                    and not e.keywords and isinstance(e.args[0], ast.UnaryOp) and isinstance(e.args[0].op, ast.USub) \
+                    and isinstance(e.args[0].operand, ast.Constant) and e.args[0].operand.value == 1:
+                return "(EB1 BReshapeFlat %s)" % self.expr(e.func.value)
         if isinstance(e, ast.Subscript):
             s = e.slice
             if isinstance(s, ast.Slice):
@@ -295,6 +363,18 @@ class Fn:
                     else:
                         raise Refuse("call of %s: missing argument %s" % (name, p))
                 return "(ECall %s %s)" % (qs(name), coq_list(out))
+            if self.score and name in self.numpy and not e.keywords:
+                one = {"max": "BNpMax", "unique": "BNpUnique", "argmax": "BNpArgmax"}
+                if self.matrix:
+                    one["min"] = "BNpMin"
+                two = {"union1d": "BUnion1d", "intersect1d": "BIntersect1d"}
+                if name in one and len(e.args) == 1:
+                    return "(EB1 %s %s)" % (one[name], self.expr(e.args[0]))
+                if name in two and len(e.args) == 2:
+                    return "(EB2 %s %s %s)" % (two[name], self.expr(e.args[0]), self.expr(e.args[1]))
+            if self.score and name == "combinations" and name in self.itertools and len(e.args) == 2 and not e.keywords \
+                    and isinstance(e.args[1], ast.Constant) and e.args[1].value == 2:
+                return "(EB1 BCombinations2 %s)" % self.expr(e.args[0])
             if name in self.numpy:
                 kws = {k.arg: k.value for k in e.keywords}
                 dtype_int = "dtype" not in kws or (isinstance(kws["dtype"], ast.Name) and kws["dtype"].id == "int"
@@ -398,6 +478,59 @@ class Fn:
                 return "(EB2 BJoin %s %s)" % (self.expr(f.value), self.expr(e.args[0]))
         raise Refuse("call %s" % ast.unparse(e)[:60])
 
+    def scalars(self):
+        """names that only ever hold ints / bools / strs / None: every binding is a constant, arithmetic, a comparison, len / int / str /
+        range-loop variable (used to let  x[i] = n  and  x.append(n)  through for containers with mutated elements)"""
+        if getattr(self, "_scalars", None) is not None:
+            return self._scalars
+        node = self.node
+        bad, seen = set(self.params), set()
+
+        def scalar_expr(v):
+            if isinstance(v, ast.Constant):
+                return True
+            if isinstance(v, (ast.BinOp, ast.Compare, ast.BoolOp, ast.UnaryOp)):
+                return all(scalar_expr(q) or isinstance(q, ast.Name) for q in ast.iter_child_nodes(v)
+                           if isinstance(q, ast.expr) and not isinstance(q, (ast.operator, ast.cmpop, ast.boolop, ast.unaryop)))
+            if isinstance(v, ast.Call) and isinstance(v.func, ast.Name) and v.func.id in ("len", "int", "str") and v.func.id not in self.assigned:
+                return True
+            return False
+        for z in ast.walk(node):
+            if isinstance(z, ast.Assign):
+                t, v = z.targets[0], z.value
+                prs = [(t, v)] if isinstance(t, ast.Name) else \
+                    (list(zip(t.elts, v.elts)) if isinstance(t, ast.Tuple) and isinstance(v, ast.Tuple) and len(t.elts) == len(v.elts)
+                     else [(q, None) for q in getattr(t, "elts", [])])
+                for a, b in prs:
+                    if isinstance(a, ast.Name):
+                        seen.add(a.id)
+                        if b is None or not scalar_expr(b):
+                            bad.add(a.id)
+            elif isinstance(z, ast.AugAssign) and isinstance(z.target, ast.Name):
+                seen.add(z.target.id)
+            elif isinstance(z, (ast.For, ast.comprehension)):
+                it = z.iter
+                rng = isinstance(it, ast.Call) and isinstance(it.func, ast.Name) and it.func.id == "range" and "range" not in self.assigned
+                for q in ast.walk(z.target):
+                    if isinstance(q, ast.Name):
+                        seen.add(q.id)
+                        if not rng:
+                            bad.add(q.id)
+        self._scalars = seen - bad
+        return self._scalars
+
+    def is_random_random(self, e):
+        """random.random(size=(n,)) with numpy's random module"""
+        return isinstance(e, ast.Call) and isinstance(e.func, ast.Attribute) and e.func.attr == "random" \
+            and isinstance(e.func.value, ast.Name) and e.func.value.id == "random" and "random" in self.numpy \
+            and "random" not in self.assigned and not e.args and len(e.keywords) == 1 and e.keywords[0].arg == "size" \
+            and isinstance(e.keywords[0].value, ast.Tuple) and len(e.keywords[0].value.elts) == 1
+
+    def is_set_of(self, e):
+        """set(x) with the builtin set"""
+        return isinstance(e, ast.Call) and isinstance(e.func, ast.Name) and e.func.id == "set" and "set" not in self.assigned \
+            and len(e.args) == 1 and not e.keywords
+
     def has_break(self, stmts):
         """a break that belongs to THIS loop (not to a loop nested in its body)"""
         for st in stmts:
@@ -480,6 +613,10 @@ class Fn:
             if self.graph and isinstance(v, ast.Call) and isinstance(v.func, ast.Name) and v.func.id == "print" \
                     and "print" not in self.assigned and not v.keywords and all(self.printable(a) for a in v.args):
                 return "SSkip"           # console output is not modelled; the arguments are total expressions (checked)
+            if self.score and isinstance(v, ast.Call) and isinstance(v.func, ast.Name) and v.func.id == "print" \
+                    and "print" not in self.assigned and not v.keywords:
+                # arguments that may call other functions: evaluated (in order) and dropped
+                return "(SExpr (ETuple %s))" % coq_list([self.expr(a) for a in v.args])
             if isinstance(v, ast.Call) and isinstance(v.func, ast.Attribute) and isinstance(v.func.value, ast.Name) \
                     and not v.keywords and v.func.value.id in self.assigned:
                 x = v.func.value.id
@@ -493,12 +630,22 @@ class Fn:
                     and len(v.args) == 1 and not v.keywords and isinstance(v.func.value, ast.Subscript) \
                     and isinstance(v.func.value.value, ast.Name) and not isinstance(v.func.value.slice, (ast.Slice, ast.Tuple)):
                 return "(SSetAdd2 %s %s %s)" % (qs(v.func.value.value.id), self.expr(v.func.value.slice), self.expr(v.args[0]))
-            if False:
-                pass
+            if self.capacity and isinstance(v, ast.Call) and isinstance(v.func, ast.Attribute) and v.func.attr == "append" \
+                    and len(v.args) == 1 and not v.keywords and isinstance(v.func.value, ast.Subscript) \
+                    and isinstance(v.func.value.value, ast.Name) and not isinstance(v.func.value.slice, (ast.Slice, ast.Tuple)):
+                return "(SAppendAt %s %s %s)" % (qs(v.func.value.value.id), self.expr(v.func.value.slice), self.expr(v.args[0]))
             raise Refuse("expression statement %s" % ast.unparse(s)[:60])
         if isinstance(s, ast.Assign):
             if len(s.targets) != 1:
                 raise Refuse("chained assignment")
+            if self.capacity:
+                # x = abs(random.random(size=(n,))): the next array of NumPy's global generator = the hidden parameter "__rng__"
+                v = s.value
+                if isinstance(v, ast.Call) and isinstance(v.func, ast.Name) and v.func.id == "abs" and "abs" in self.numpy \
+                        and len(v.args) == 1 and not v.keywords and self.is_random_random(v.args[0]) and isinstance(s.targets[0], ast.Name):
+                    size = v.args[0].keywords[0].value.elts[0]
+                    return "(SSeq (SNextRandom %s %s)\n (SAssign (TVar %s) (EB1 BAbs (EVar %s))))" % (
+                        qs("__rand__"), self.expr(size), qs(s.targets[0].id), qs("__rand__"))
             if isinstance(s.targets[0], ast.Name) and s.targets[0].id in self.monitors:
                 return "(SAssign (TVar %s) EOpaque)" % qs(s.targets[0].id)
             return "(SAssign %s %s)" % (self.target(s.targets[0]), self.expr(s.value))
@@ -524,6 +671,9 @@ class Fn:
             x = s.exc
             if s.cause is None and isinstance(x, ast.Call) and isinstance(x.func, ast.Name) and x.func.id in EXNS:
                 return "(SRaise %s)" % EXNS[x.func.id]           # the message is not modelled (and not evaluated)
+            if self.matrix and s.cause is None and isinstance(x, ast.Call) and isinstance(x.func, ast.Name) and x.func.id == "MemoryError" \
+                    and "MemoryError" not in self.assigned:
+                return "(SRaise OtherExn)"
             raise Refuse("raise")
         if isinstance(s, ast.Pass):
             return "SSkip"
@@ -532,6 +682,13 @@ class Fn:
         if self.repair and isinstance(s, ast.Delete) and len(s.targets) == 1 and isinstance(s.targets[0], ast.Subscript) \
                 and isinstance(s.targets[0].value, ast.Name) and not isinstance(s.targets[0].slice, (ast.Slice, ast.Tuple)):
             return "(SDel %s %s)" % (qs(s.targets[0].value.id), self.expr(s.targets[0].slice))
+        if self.score and isinstance(s, ast.Delete) and len(s.targets) == 1:
+            t = s.targets[0]
+            if isinstance(t, ast.Name) and t.id in self.assigned and t.id not in self.params:
+                return "(SDelVar %s)" % qs(t.id)
+            if isinstance(t, ast.Subscript) and isinstance(t.value, ast.Subscript) and isinstance(t.value.value, ast.Name) \
+                    and not isinstance(t.slice, (ast.Slice, ast.Tuple)) and not isinstance(t.value.slice, (ast.Slice, ast.Tuple)):
+                return "(SDel2 %s %s %s)" % (qs(t.value.value.id), self.expr(t.value.slice), self.expr(t.slice))
         raise Refuse("statement %s" % type(s).__name__)
 
     # ---------------------------------------------------------------- aliasing side condition
@@ -655,9 +812,108 @@ class Fn:
                 return True
             if isinstance(v, ast.Call) and isinstance(v.func, ast.Attribute) and v.func.attr == "join":
                 return True
+            if self.capacity and isinstance(v, ast.Call) and isinstance(v.func, ast.Name) and v.func.id in ("abs", "zeros_like") \
+                    and v.func.id in self.numpy and v.func.id not in self.assigned:
+                return True                      # NumPy builds a new array
             return False
+        # RULE D (flow-sensitive, used by the capacity unit): a mutated name x may be bound to / copied from shared objects when EVERY
+        # in-place mutation of x is dominated, inside its own or an enclosing statement list, by an unconditional FRESH re-binding of x
+        # (x = zeros_like(..) / ones(..) / abs(..) / [] ..., or an if / else whose two branches both end in one), such that between the
+        # re-binding and the mutation -- including the whole of every compound statement that encloses the mutation below that level --
+        # x is mentioned nowhere except as the target of such mutations.  The object x names at the mutation was then created in this
+        # execution of the block and nothing else refers to it, so the value semantics of MiniPy (no sharing) describes it.
+        def mentions_other(root, nm):
+            targets = set()
+            for z in ast.walk(root):
+                if isinstance(z, (ast.Assign, ast.AugAssign)):
+                    for t in (z.targets if isinstance(z, ast.Assign) else [z.target]):
+                        if isinstance(t, ast.Subscript) and isinstance(t.value, ast.Name) and t.value.id == nm:
+                            targets.add(id(t.value))
+            return any(isinstance(z, ast.Name) and z.id == nm and id(z) not in targets for z in ast.walk(root))
+
+        def fresh_rebind(st, nm):
+            if isinstance(st, ast.Assign) and len(st.targets) == 1:
+                t0, v0 = st.targets[0], st.value
+                if isinstance(t0, ast.Name) and t0.id == nm:
+                    return fresh(v0) and not any(isinstance(z, ast.Name) and z.id == nm for z in ast.walk(v0))
+                if isinstance(t0, ast.Tuple) and isinstance(v0, ast.Tuple) and len(t0.elts) == len(v0.elts):
+                    hits = [(a, b) for a, b in zip(t0.elts, v0.elts) if isinstance(a, ast.Name) and a.id == nm]
+                    return len(hits) == 1 and fresh(hits[0][1]) and not any(isinstance(z, ast.Name) and z.id == nm for z in ast.walk(v0))
+                return False
+            if isinstance(st, ast.If) and st.body and st.orelse and not mentions_other(st.test, nm):
+                def branch_ok(blk):
+                    idx = [k for k, q in enumerate(blk) if fresh_rebind(q, nm)]
+                    return bool(idx) and not any(mentions_other(q, nm) for q in blk[idx[-1] + 1:])
+                return branch_ok(st.body) and branch_ok(st.orelse)
+            return False
+
+        def is_mutation_stmt(st, nm):
+            return isinstance(st, (ast.Assign, ast.AugAssign)) and any(
+                isinstance(t, ast.Subscript) and isinstance(t.value, ast.Name) and t.value.id == nm
+                for t in (st.targets if isinstance(st, ast.Assign) else [st.target]))
+
+        def chains(blk, nm, prefix):
+            # ancestor chains (list of (block, index)) of the statements that mutate nm by a subscript store
+            for i, st in enumerate(blk):
+                if is_mutation_stmt(st, nm):
+                    yield prefix + [(blk, i)]
+                for sub in ("body", "orelse"):
+                    inner = getattr(st, sub, None)
+                    if isinstance(inner, list) and inner and isinstance(inner[0], ast.stmt):
+                        yield from chains(inner, nm, prefix + [(blk, i)])
+
+        def dominated_name(nm):
+            if sites(node, nm) == 0:
+                return False
+            # every kind of mutation must be a plain subscript store / augmented store (no append, no x[i][j] = ..)
+            n_plain = sum(1 for z in ast.walk(node) if isinstance(z, ast.stmt) and is_mutation_stmt(z, nm))
+            if n_plain != sites(node, nm) or nm in (mutations(node) - {nm}) and False:
+                return False
+            for z in ast.walk(node):
+                if isinstance(z, ast.Call) and isinstance(z.func, ast.Attribute) and isinstance(z.func.value, ast.Name) \
+                        and z.func.value.id == nm and z.func.attr in ("append", "insert", "extend", "pop", "remove", "sort", "reverse",
+                                                                       "clear", "add", "discard", "update"):
+                    return False
+                if isinstance(z, ast.Delete) and any(isinstance(t, ast.Subscript) and isinstance(t.value, ast.Name) and t.value.id == nm
+                                                     for t in z.targets):
+                    return False
+            for chain in chains(node.body, nm, []):
+                ok = False
+                for level in range(len(chain) - 1, -1, -1):
+                    blk, i = chain[level]
+                    # the compound statement enclosing the mutation at this level (or the mutation itself) mentions nm only as a store target
+                    if mentions_other(blk[i], nm):
+                        break
+                    found = None
+                    bad = False
+                    for j in range(i - 1, -1, -1):
+                        if fresh_rebind(blk[j], nm):
+                            found = j
+                            break
+                        if mentions_other(blk[j], nm) or any(isinstance(z, ast.Name) and z.id == nm for z in ast.walk(blk[j])
+                                                               if not is_mutation_stmt(blk[j], nm)):
+                            bad = True
+                            break
+                    if bad:
+                        break
+                    if found is not None:
+                        ok = True
+                        break
+                if not ok:
+                    return False
+            return True
+        dominated = {nm for nm in mutated if self.capacity and nm not in self.params and dominated_name(nm)}
         # a display that is returned hands its elements over to the caller: nothing of this function runs afterwards
         returned = {id(n.value) for n in ast.walk(node) if isinstance(n, ast.Return) and n.value is not None}
+        for n in ast.walk(node):             # ... also when the returned display is a branch of a conditional expression
+            if isinstance(n, ast.Return) and isinstance(n.value, ast.IfExp):
+                stack = [n.value]
+                while stack:
+                    q = stack.pop()
+                    if isinstance(q, ast.IfExp):
+                        stack += [q.body, q.orelse]
+                    else:
+                        returned.add(id(q))
         for n in ast.walk(node):
             if isinstance(n, ast.Assign):
                 t, v = n.targets[0], n.value
@@ -670,16 +926,16 @@ class Fn:
                     else:
                         pairs = [(a.id, None) for a in t.elts if isinstance(a, ast.Name)]
                 for name, val in pairs:
-                    if name in mutated and (val is None or not fresh(val)):
+                    if name in mutated and name not in dominated and (val is None or not fresh(val)):
                         raise Refuse("aliasing: mutated name %s bound to a possibly shared object" % name)
                 # a mutated name as a bare right-hand side or inside a display creates a second reference
                 vals = [v] + (list(v.elts) if isinstance(v, (ast.Tuple, ast.List)) else [])
                 for val in vals:
-                    if isinstance(val, ast.Name) and val.id in mutated and id(n) not in harmless_alias:
+                    if isinstance(val, ast.Name) and val.id in mutated and id(n) not in harmless_alias and val.id not in dominated:
                         raise Refuse("aliasing: mutated name %s copied by reference" % val.id)
             if isinstance(n, (ast.List, ast.Tuple)) and isinstance(getattr(n, "ctx", None), ast.Load) and id(n) not in returned:
                 for val in n.elts:
-                    if isinstance(val, ast.Name) and val.id in mutated:
+                    if isinstance(val, ast.Name) and val.id in mutated and val.id not in dominated:
                         raise Refuse("aliasing: mutated name %s inside a display" % val.id)
             if isinstance(n, ast.Call) and isinstance(n.func, ast.Name) and n.func.id in self.sigs:
                 cparams = self.sigs[n.func.id][0]
@@ -705,6 +961,37 @@ class Fn:
                         raise Refuse("for loop over a list mutated in its body")
             if isinstance(n, ast.Return) and isinstance(n.value, ast.Name) and n.value.id in self.params and n.value.id in mutated:
                 pass  # returning the (re-bound) parameter hands over ownership
+        # a container whose ELEMENTS are mutated in place (x[i][j] = .., x[i].append(..)) must not hold objects that have another name:
+        # it is never built from bare names (display, comprehension element) and never receives one by append / insert / x[i] = y
+        nested = set()
+        for z in ast.walk(node):
+            if isinstance(z, (ast.Assign, ast.AugAssign)):
+                for t in (z.targets if isinstance(z, ast.Assign) else [z.target]):
+                    if isinstance(t, ast.Subscript) and isinstance(t.value, ast.Subscript) and isinstance(t.value.value, ast.Name):
+                        nested.add(t.value.value.id)
+            if isinstance(z, ast.Call) and isinstance(z.func, ast.Attribute) and isinstance(z.func.value, ast.Subscript) \
+                    and isinstance(z.func.value.value, ast.Name) \
+                    and z.func.attr in ("append", "insert", "extend", "pop", "remove", "sort", "reverse", "clear", "add", "discard", "update"):
+                nested.add(z.func.value.value.id)
+        nested -= set(self.inplace)
+        for z in ast.walk(node):
+            if isinstance(z, ast.Assign):
+                t, v = z.targets[0], z.value
+                prs = [(t, v)] if isinstance(t, ast.Name) else \
+                    (list(zip(t.elts, v.elts)) if isinstance(t, ast.Tuple) and isinstance(v, ast.Tuple) and len(t.elts) == len(v.elts) else [])
+                for a, b in prs:
+                    if isinstance(a, ast.Name) and a.id in nested:
+                        elts = list(getattr(b, "elts", [])) + ([b.elt] if isinstance(b, ast.ListComp) else []) \
+                            + (list(b.values) if isinstance(b, ast.Dict) else [])
+                        if any(isinstance(q, ast.Name) for q in elts):
+                            raise Refuse("aliasing: container %s with mutated elements is built from named objects" % a.id)
+                if isinstance(t, ast.Subscript) and isinstance(t.value, ast.Name) and t.value.id in nested and isinstance(v, ast.Name) \
+                        and v.id not in self.scalars():
+                    raise Refuse("aliasing: named object stored into container %s whose elements are mutated" % t.value.id)
+            if isinstance(z, ast.Call) and isinstance(z.func, ast.Attribute) and isinstance(z.func.value, ast.Name) \
+                    and z.func.value.id in nested and z.func.attr in ("append", "insert", "extend") \
+                    and any(isinstance(q, ast.Name) and q.id not in self.scalars() for q in z.args):
+                raise Refuse("aliasing: named object appended to container %s whose elements are mutated" % z.func.value.id)
         # a mutated parameter is freshly re-bound, unconditionally, before its first mutation
         body = list(node.body)
         for p in self.params:
@@ -718,6 +1005,8 @@ class Fn:
                     if p in names:
                         rebound_at = i
                         break
+            if rebound_at is None and p in self.inplace:
+                continue          # documented in-place update of an argument that is handed back: the result IS the argument
             if rebound_at is None:
                 raise Refuse("aliasing: parameter %s is mutated in place" % p)
             for st in body[:rebound_at]:
@@ -895,6 +1184,201 @@ def generate_graph(repo, out_path):
     return order
 
 
+SCORE_FUNCS = ["calculate_intersection_score", "remove_nasty_arc"]
+
+
+def generate_score(repo, out_path):
+    """calculate_intersection_score (dsw/graphized.py) and remove_nasty_arc (dsw/spiderweb.py) as MiniPyS terms, in front of
+    MiniPyS copies of obtain_leaf_vertices and obtain_vertices; number_to_dna (only inside a verbose print) is left to the
+    callee environment.  remove_nasty_arc updates its arguments accessor and latter_map IN PLACE and returns them: the value
+    semantics describes the returned objects, which are the caller's objects."""
+    sp = ast.parse(open(os.path.join(repo, "dsw", "spiderweb.py")).read())
+    gr = ast.parse(open(os.path.join(repo, "dsw", "graphized.py")).read())
+    op = ast.parse(open(os.path.join(repo, "dsw", "operation.py")).read())
+    names = {"s": {}, "g": {}}
+    imported = set()
+    for rel, tree in (("s", sp), ("g", gr)):
+        for n in tree.body:
+            if isinstance(n, ast.ImportFrom):
+                for a in n.names:
+                    if a.asname is not None:
+                        raise Refuse("import ... as")
+                    names[rel].setdefault(n.module, set()).add(a.name)
+                    if rel == "s" and n.module in ("dsw.graphized", "dsw.operation"):
+                        imported.add(a.name)
+            elif isinstance(n, ast.Import):
+                raise Refuse("plain import at module level")
+            elif isinstance(n, (ast.Assign, ast.AugAssign, ast.AnnAssign)):
+                raise Refuse("module-level assignment")
+    for c in ("calculate_intersection_score", "obtain_vertices", "number_to_dna"):
+        if c not in imported:
+            raise Refuse("spiderweb.py does not import %s" % c)
+    gnames = ["calculate_intersection_score", "obtain_leaf_vertices", "obtain_vertices"]
+    gdefs = {n.name: n for n in gr.body if isinstance(n, ast.FunctionDef) and n.name in gnames}
+    sdefs = [n for n in sp.body if isinstance(n, ast.FunctionDef) and n.name == "remove_nasty_arc"]
+    odefs = [n for n in op.body if isinstance(n, ast.FunctionDef) and n.name == "number_to_dna"]
+    if len(gdefs) != 3 or len(sdefs) != 1 or len(odefs) != 1:
+        raise Refuse("function definitions")
+    if any(isinstance(n, (ast.FunctionDef, ast.ClassDef)) and n.name in gnames + ["number_to_dna"] for n in sp.body):
+        raise Refuse("spiderweb.py re-defines an imported function")
+    sigs = {}
+    for d in list(gdefs.values()) + sdefs + odefs:
+        a = d.args
+        params = [x.arg for x in a.args]
+        dflt = dict(zip(params[len(params) - len(a.defaults):], a.defaults))
+        if any(not isinstance(v, ast.Constant) for v in dflt.values()):
+            raise Refuse("non-constant default")
+        sigs[d.name] = (params, dflt)
+    parts = ["(* GENERATED by harness/translate_minipy.py from %s/dsw/graphized.py and spiderweb.py -- do not edit *)\n"
+             "From DSW Require Import MiniPyS.\nOpen Scope Z_scope.\n" % repo]
+    npn = {"where", "sum", "array", "zeros", "ones", "max", "unique", "argmax", "union1d", "intersect1d", "log", "argsort"}
+    gsig = {k: v for k, v in sigs.items() if k in gnames}
+    borrow = {"obtain_vertices": borrowed_params(gdefs["obtain_vertices"]),
+              "obtain_leaf_vertices": borrowed_params(gdefs["obtain_leaf_vertices"])}
+    # calculate_intersection_score hands latter_map on to obtain_leaf_vertices, which only reads it
+    cis = gdefs["calculate_intersection_score"]
+    for fname in ("obtain_vertices", "obtain_leaf_vertices"):
+        f = Fn(gdefs[fname], gsig, numpy=npn & names["g"].get("numpy", set()), graph=True, coding=True, repair=True, score=True,
+               itertools=names["g"].get("itertools", set()), collections=names["g"].get("collections", set()))
+        parts.append(f.translate())
+    f = Fn(cis, gsig, numpy=npn & names["g"].get("numpy", set()), graph=True, coding=True, repair=True, score=True,
+           itertools=names["g"].get("itertools", set()), collections=names["g"].get("collections", set()))
+    f.borrowing = borrow
+    parts.append(f.translate())
+    # latter_map is read-only in calculate_intersection_score if every use is a read or a hand-over to a borrowing callee
+    cis_borrow = set()
+    for prm in [a.arg for a in cis.args.args]:
+        ok = True
+        for n in ast.walk(cis):
+            if isinstance(n, ast.Name) and n.id == prm and isinstance(n.ctx, (ast.Store, ast.Del)):
+                ok = False
+            if isinstance(n, (ast.Assign, ast.AugAssign)):
+                for t in (n.targets if isinstance(n, ast.Assign) else [n.target]):
+                    if isinstance(t, ast.Subscript) and isinstance(t.value, ast.Name) and t.value.id == prm:
+                        ok = False
+                v = n.value
+                for val in [v] + (list(v.elts) if isinstance(v, (ast.Tuple, ast.List)) else []):
+                    if isinstance(val, ast.Name) and val.id == prm:
+                        ok = False
+            if isinstance(n, ast.Return) and isinstance(n.value, ast.Name) and n.value.id == prm:
+                ok = False
+            if isinstance(n, ast.Call) and isinstance(n.func, ast.Name):
+                cal = n.func.id
+                cp = sigs.get(cal, ([], {}))[0]
+                for pn, val in list(zip(cp, n.args)) + [(k.arg, k.value) for k in n.keywords]:
+                    if isinstance(val, ast.Name) and val.id == prm and cal != "len" and pn not in borrow.get(cal, ()):
+                        ok = False
+            if isinstance(n, ast.Call) and isinstance(n.func, ast.Attribute) and isinstance(n.func.value, ast.Name) and n.func.value.id == prm \
+                    and n.func.attr not in ("keys", "items", "values", "get", "index", "count", "copy", "tolist", "astype", "reshape"):
+                ok = False
+        if ok:
+            cis_borrow.add(prm)
+    top = Fn(sdefs[0], sigs, numpy=npn & names["s"].get("numpy", set()), graph=True, coding=True, repair=True, score=True,
+             itertools=names["s"].get("itertools", set()), collections=names["s"].get("collections", set()),
+             inplace=["accessor", "latter_map"])
+    top.borrowing = dict(borrow, calculate_intersection_score=cis_borrow)
+    parts.append(top.translate())
+    parts.append("Definition score_module : module :=\n %s.\n"
+                 % coq_list(["(%s, %s_def)" % (qs(f), f) for f in ["remove_nasty_arc", "calculate_intersection_score", "obtain_leaf_vertices",
+                                                                 "obtain_vertices"]]))
+    open(out_path, "w").write("\n".join(parts))
+    return SCORE_FUNCS
+
+
+MATRIX_FUNCS = ["accessor_to_adjacency_matrix", "adjacency_matrix_to_accessor"]
+
+
+def generate_matrix(repo, out_path):
+    """accessor_to_adjacency_matrix and adjacency_matrix_to_accessor (dsw/graphized.py) as MiniPyM terms, in front of a MiniPyM
+    copy of obtain_latters.  The iteration order of `list(a_set)` is left to the callee environment (the external function
+    "__list_of_set__"): the theorems assume of it only that it lists the elements of the set, each once, and lists non-negative
+    ints that lie in one aligned block of eight in ascending order (what CPython's open-addressing int sets do)."""
+    gr = ast.parse(open(os.path.join(repo, "dsw", "graphized.py")).read())
+    names = {}
+    for n in gr.body:
+        if isinstance(n, ast.ImportFrom):
+            for a in n.names:
+                if a.asname is not None:
+                    raise Refuse("import ... as")
+                names.setdefault(n.module, set()).add(a.name)
+        elif isinstance(n, ast.Import):
+            raise Refuse("plain import at module level")
+        elif isinstance(n, (ast.Assign, ast.AugAssign, ast.AnnAssign)):
+            raise Refuse("module-level assignment")
+    gnames = MATRIX_FUNCS + ["obtain_latters"]
+    gdefs = {n.name: n for n in gr.body if isinstance(n, ast.FunctionDef) and n.name in gnames}
+    if len(gdefs) != 3:
+        raise Refuse("function definitions")
+    sigs = {}
+    for d in gdefs.values():
+        a = d.args
+        params = [x.arg for x in a.args]
+        dflt = dict(zip(params[len(params) - len(a.defaults):], a.defaults))
+        if any(not isinstance(v, ast.Constant) for v in dflt.values()):
+            raise Refuse("non-constant default")
+        sigs[d.name] = (params, dflt)
+    parts = ["(* GENERATED by harness/translate_minipy.py from %s/dsw/graphized.py -- do not edit *)\n"
+             "From DSW Require Import MiniPyM.\nOpen Scope Z_scope.\n" % repo]
+    npn = {"where", "sum", "array", "zeros", "ones", "max", "min", "log"}
+    for fname in ("obtain_latters", "accessor_to_adjacency_matrix", "adjacency_matrix_to_accessor"):
+        f = Fn(gdefs[fname], sigs, numpy=npn & names.get("numpy", set()), graph=True, coding=True, repair=True, score=True,
+               itertools=names.get("itertools", set()), collections=names.get("collections", set()), matrix=True)
+        f.borrowing = {"obtain_latters": borrowed_params(gdefs["obtain_latters"])}
+        parts.append(f.translate())
+    parts.append("Definition matrix_module : module :=\n %s.\n"
+                 % coq_list(["(%s, %s_def)" % (qs(f), f) for f in ["accessor_to_adjacency_matrix", "adjacency_matrix_to_accessor",
+                                                                 "obtain_latters"]]))
+    open(out_path, "w").write("\n".join(parts))
+    return MATRIX_FUNCS
+
+
+CAPACITY_FUNCS = ["approximate_capacity"]
+
+
+def generate_capacity(repo, out_path):
+    """approximate_capacity (dsw/graphized.py) as a MiniPyC term.  numpy.random.random is the hidden parameter "__rng__" (a list of
+    arrays, consumed from the front); log2 and ** with a negative exponent are the external functions "__log2__", "__pow__"."""
+    gr = ast.parse(open(os.path.join(repo, "dsw", "graphized.py")).read())
+    names = {}
+    for n in gr.body:
+        if isinstance(n, ast.ImportFrom):
+            for a in n.names:
+                if a.asname is not None:
+                    raise Refuse("import ... as")
+                names.setdefault(n.module, set()).add(a.name)
+        elif isinstance(n, ast.Import):
+            raise Refuse("plain import at module level")
+        elif isinstance(n, (ast.Assign, ast.AugAssign, ast.AnnAssign)):
+            raise Refuse("module-level assignment")
+    defs = [n for n in gr.body if isinstance(n, ast.FunctionDef) and n.name == "approximate_capacity"]
+    if len(defs) != 1:
+        raise Refuse("function definitions")
+    d = defs[0]
+    a = d.args
+    params = [x.arg for x in a.args]
+    dflt = dict(zip(params[len(params) - len(a.defaults):], a.defaults))
+    if "__rng__" in params or "__rand__" in params:
+        raise Refuse("reserved name")
+    sigs = {d.name: (params, dflt)}
+    npn = {"where", "sum", "array", "zeros", "ones", "max", "min", "log", "all", "abs", "zeros_like", "median", "log2", "random"}
+    f = Fn(d, sigs, numpy=npn & names.get("numpy", set()), graph=True, coding=True, repair=True, score=True,
+           itertools=names.get("itertools", set()), collections=names.get("collections", set()), capacity=True)
+    for n in ast.walk(d):
+        if isinstance(n, ast.Name) and n.id in ("__rng__", "__rand__"):
+            raise Refuse("reserved name")
+    text = f.translate()
+    # the hidden parameter: the stream of arrays numpy.random.random will return
+    head = 'params := [%s]' % "; ".join(qs(p) for p in params)
+    if text.count(head) != 1:
+        raise Refuse("parameter list")
+    text = text.replace(head, 'params := [%s]' % "; ".join(qs(p) for p in params + ["__rng__"]))
+    parts = ["(* GENERATED by harness/translate_minipy.py from %s/dsw/graphized.py -- do not edit *)\n"
+             "From Coq Require Import PrimFloat.\nFrom DSW Require Import MiniPyC.\nOpen Scope Z_scope.\n" % repo, text,
+             "Definition capacity_module : module :=\n %s.\n" % coq_list(["(%s, %s_def)" % (qs("approximate_capacity"), "approximate_capacity")])]
+    open(out_path, "w").write("\n".join(parts))
+    return CAPACITY_FUNCS
+
+
 REPAIR_FUNCS = ["path_matching", "repair_dna"]
 
 
@@ -1061,6 +1545,9 @@ if __name__ == "__main__":
     import sys
     if sys.argv[1:2] == ["biofilter"]:
         generate_biofilter(sys.argv[2], sys.argv[3])
+        sys.exit(0)
+    if sys.argv[1:2] == ["score"]:
+        generate_score(sys.argv[2], sys.argv[3])
         sys.exit(0)
     if sys.argv[1:2] == ["repair"]:
         generate_repair(sys.argv[2], sys.argv[3])
